@@ -103,7 +103,9 @@ def instance_for(case, k):
     xs = case["instances"]
     x = copy.deepcopy(xs[k % len(xs)])
     if isinstance(x, dict):
-        x.setdefault("vf", ["b", "ab", "abc"][k % 3])
+        # the SAME string goes through every validator's own "vf" function (they disagree about it)
+        x.setdefault("vf", ["ab", "b", "abcd", "abc"][len(case["instances"][0]) % 4 if isinstance(
+            case["instances"][0], (list, dict, str)) else 0])
     return x
 
 
